@@ -153,7 +153,23 @@ def ty_of(spec, classes):
 def case_create(c):
     """decl, decider spec, source spec, optional start type (default: the start symbol via the
     representation's create_genotype)."""
-    mod, classes = load_decl(c["decl"])
+    if c.get("decl0") is not None:
+        # the documented re-declaration pattern: use the classes once, then change one constructor annotation
+        # (Cls.__init__.__annotations__[name] = NewType) so that they now read as c["decl"], and extract again
+        mod, classes = load_decl(c["decl0"])
+
+        def warm():
+            g0 = extract(c["decl0"], classes)
+            s0 = RecordingSource(1)
+            from geneticengine.representations.tree.treebased import TreeBasedRepresentation
+            TreeBasedRepresentation(g0, mk_decider(["max", 8], s0, g0)).create_genotype(s0)
+        guarded(warm)
+        for i, (k0, k1) in enumerate(zip(c["decl0"]["classes"], c["decl"]["classes"])):
+            for j, (t0, t1) in enumerate(zip(k0["fields"], k1["fields"])):
+                if t0 != t1:
+                    classes[i].__init__.__annotations__[f"f{j}"] = ty_of(t1, classes)
+    else:
+        mod, classes = load_decl(c["decl"])
     canon = Canon(classes)
     out = {}
     rg = guarded(lambda: extract(c["decl"], classes))
@@ -179,6 +195,10 @@ def case_create(c):
         if "exc" in rd:
             return {"phase": "validate", "res": rd, "alts_before": out["alts_before"], "alts_after": alts_obs(g, classes), "src": src_obs(src)}
         decider = rd["ok"]
+        if c.get("interleave") is not None:
+            # another grammar over the same classes is extracted before this one is used
+            other = dict(c["decl"], xdepth=c["interleave"]["xdepth"], considered=c["interleave"]["considered"])
+            guarded(lambda: extract(other, classes))
 
         def f():
             from geneticengine.representations.tree.treebased import TreeBasedRepresentation, random_node
